@@ -68,8 +68,8 @@ func checkAlphabet(c *Ctx, m *MChar, rec spg.CharRecipe, cfg CharCfg) bool {
 func init() {
 	register(&CheckDef{
 		ID: "C03", Level: "exploration",
-		Technique: "deterministic simulation: validity predicate as an invariant on every simulated generation; boundary-biased choice walks over large recipes (every flag triple in thorough) and complete choice-tree sweeps of small recipes",
-		Rule:      "case = one Generate call (walk step or sweep leaf) checked against the recipe model, plus one Alphabet() call per configuration; distinct by hash of (recipe, returned password); non-trivial = the recipe has an exclusion or a requirement",
+		Technique:   "deterministic simulation: validity predicate as an invariant on every simulated generation; boundary-biased choice walks over large recipes (every flag triple in thorough) and complete choice-tree sweeps of small recipes",
+		Rule:        "case = one Generate call (walk step or sweep leaf) checked against the recipe model, plus one Alphabet() call per configuration; distinct by hash of (recipe, returned password); non-trivial = the recipe has an exclusion or a requirement",
 		Assumptions: []string{"a required set emptied by exclusion is void (the statement: 'each required set that still has a non-excluded member')", "recipes the library refuses contribute no passwords (refusal is C13's business)"},
 		Episodes:    map[string]int{"quick": 12000, "thorough": 1000000},
 		TwiceEvery:  9,
